@@ -164,6 +164,11 @@ def h_algebra(ctx, cfg):
   elif op == "self2":         # the same time-varying filter used twice through a copy
     r = f + f.copy() * c
     if not tvden: ctx.assume(c != -1)
+  elif op in ("pow2", "pow3", "powm1", "powm2"):
+    # integer powers: the algebra re-uses the operand's coefficient Streams |n| times (Poly.__pow__ copies them)
+    r = f ** {"pow2": 2, "pow3": 3, "powm1": -1, "powm2": -2}[op]
+    if op in ("powm1", "powm2"):
+      ctx.assume(Or(*[v != 0 for v in fnum.values() if isinstance(v, Sym)]) if any(isinstance(v, Sym) for v in fnum.values()) else True)
   elif op == "samedenom":
     # H + H*c: both operands share H's denominator *object*, so the sum keeps it once and its Streams are
     # used once (legitimate without a copy only when the numerator holds no Stream)
@@ -173,8 +178,14 @@ def h_algebra(ctx, cfg):
     ctx.assume(c != 1)
     r = f - f * c
   else: raise ValueError(op)
+  def _rpow(p, e):
+    out = p
+    for _ in range(e - 1): out = _rmul(out, p)
+    return out
   def numn(n):
     fn, fd, gn, gd = _at(fna, n), _at(fda, n), _at(gna, n), _at(gda, n)
+    if op in ("pow2", "pow3"): return _rpow(fn, int(op[-1]))
+    if op in ("powm1", "powm2"): return _rpow(fd, int(op[-1]))
     return {"add": lambda: _radd(_rmul(fn, gd), _rmul(gn, fd)),
             "sub": lambda: _radd(_rmul(fn, gd), _rscale(_rmul(gn, fd), -1)),
             "mul": lambda: _rmul(fn, gn), "cmul": lambda: _rscale(fn, c), "mulc": lambda: _rscale(fn, c),
@@ -184,6 +195,8 @@ def h_algebra(ctx, cfg):
             "self2": lambda: (_radd(_rmul(fn, fd), _rscale(_rmul(fn, fd), c)) if tvden else _rscale(fn, 1 + c))}[op]()
   def denn(n):
     fn, fd, gn, gd = _at(fna, n), _at(fda, n), _at(gna, n), _at(gda, n)
+    if op in ("pow2", "pow3"): return _rpow(fd, int(op[-1]))
+    if op in ("powm1", "powm2"): return _rpow(fn, int(op[-1]))
     return {"add": lambda: _rmul(fd, gd), "sub": lambda: _rmul(fd, gd), "mul": lambda: _rmul(fd, gd),
             "cmul": lambda: fd, "mulc": lambda: fd, "addc": lambda: fd, "delay": lambda: fd,
             "div": lambda: _rmul(fd, gn), "self2": lambda: (_rmul(fd, fd) if tvden else fd),
@@ -261,6 +274,10 @@ def tasks(tier, seed):
         {"num": [(0, "c")], "den": [(0, "c"), (1, S)]}, {"num": [(0, "c")], "den": [(0, S)]}]
   for f in TV:
     for op in ("cmul", "mulc", "addc", "delay", "self2"):
+      T.append(("h_algebra", {"op": op, "f": f, "g": C0, "N": N}))
+  # integer powers of time-varying filters: one-term and several-term polynomials take different routes in Poly.__pow__
+  for f in TV + [{"num": [(1, S)], "den": [(0, "c")]}, {"num": [(0, "c"), (1, S)], "den": [(0, "c"), (1, "c")]}]:
+    for op in ("pow2", "pow3") + (("powm1", "powm2") if f["num"][0][0] == 0 else ()):
       T.append(("h_algebra", {"op": op, "f": f, "g": C0, "N": N}))
     for op in ("add", "sub", "mul", "div"):
       T.append(("h_algebra", {"op": op, "f": f, "g": {"num": [(0, "c"), (1, "c")], "den": [(0, "c")]}, "N": N}))
